@@ -127,6 +127,10 @@ def random_graph(rng, maxn):
 
 def make_case(rng, maxn=400, workers=None, fail_fast=None, cancel=False, family=None, lat_scale=300):
     n, edges, fam = family if family else random_graph(rng, maxn)
+    if edges and rng.random() < 0.2:
+        # the same dependency listed more than once: analysis.BuildGraph adds one edge per listed label
+        edges = list(edges) + [list(rng.choice(edges)) for _ in range(rng.randint(1, 3))]
+        edges.sort(key=lambda e: (e[1], e[0]))
     c = {"n": n, "edges": edges, "family": fam}
     c["failFast"] = rng.random() < 0.4 if fail_fast is None else fail_fast
     # failing subset
@@ -151,6 +155,7 @@ def make_case(rng, maxn=400, workers=None, fail_fast=None, cancel=False, family=
     c["latUs"] = lat
     c["yield"] = rng.random() < 0.5
     c["onCancel"] = [rng.choice(["abort", "abort", "fail", "ignore"]) for _ in range(n)]
+    c["failKind"] = [rng.choice(["error", "error", "deadline"]) for _ in range(n)]
     c["workers"] = rng.choice([0, 0, 1, 2, 3, 8]) if workers is None else workers
     # unselected nodes: a set closed under dependants (so the selection is closed under dependencies)
     unsel = set()
@@ -364,10 +369,19 @@ def intest_as_out(r):
 # ------------------------------------------------------------------------------------------------
 
 class CliWs:
-    """kinds: per node one of None | 'exit' | 'timeout' | 'missing' | 'check'; a node fails with its kind until
-    heal() creates its flag file. sleep: per node seconds of `sleep` inside the command."""
+    """kinds: per node one of None | 'exit' | 'exit-logged' | 'timeout' | 'missing' | 'missing-first' | 'check'; a node fails with its kind
+    until heal() creates its flag file. sleep: per node seconds of `sleep` inside the command.
+    Options (all default to nothing):
+      dir_outputs   nodes that also declare a directory output d<i>/ (one.txt and sub/two.txt)
+      sleep_after   nodes that produce their outputs before sleeping
+      dup_deps      nodes that list every dependency twice, as ":tD" and as "//pkg:tD"
+      no_outputs    nodes that declare no outputs (their dependants do not read anything from them)
+      check_only    nodes with an EMPTY command and one output check whose command logs "cs i"/"ce i" and sleeps sleep[i]
+      via_alias     nodes d whose dependants depend on the alias ":a<d>" (actual ":t<d>") instead of on ":t<d>"
+      timeouts      {node: "300ms"} explicit `timeout:` values (kind 'timeout' sets 300ms itself)"""
 
-    def __init__(self, ctx, name, n, edges, kinds=None, sleep=None, workers=2, dir_outputs=(), sleep_after=()):
+    def __init__(self, ctx, name, n, edges, kinds=None, sleep=None, workers=2, dir_outputs=(), sleep_after=(),
+                 dup_deps=(), no_outputs=(), check_only=(), via_alias=(), timeouts=None, toml_extra=""):
         self.grog = ctx.grog_binary()
         self.d = ctx.scratch(name)
         self.ws = os.path.join(self.d, "ws")
@@ -378,17 +392,27 @@ class CliWs:
         os.makedirs(os.path.join(self.ws, "pkg"), exist_ok=True)
         os.makedirs(self.root, exist_ok=True)
         with open(os.path.join(self.ws, "grog.toml"), "w") as fh:
-            fh.write(f"num_workers = {workers}\n")
+            fh.write(f"num_workers = {workers}\n{toml_extra}")
         ins = deps_of(n, edges)
         targets = []
         for i in range(n):
             flag = os.path.join(self.d, f"flag{i}")
             k = self.kinds[i]
-            gate, produce = "", f"cat {' '.join(f't{d}.out' for d in ins[i])} /dev/null > t{i}.out; echo t{i} >> t{i}.out"
-            t = {"name": f"t{i}", "dependencies": [f":t{d}" for d in ins[i]], "outputs": [f"t{i}.out"]}
+            readable = [d for d in ins[i] if d not in no_outputs and d not in check_only]
+            gate, produce = "", f"cat {' '.join(f't{d}.out' for d in readable)} /dev/null > t{i}.out; echo t{i} >> t{i}.out"
+            deps = []
+            for d in ins[i]:
+                lbl = f":a{d}" if d in via_alias else f":t{d}"
+                deps.append(lbl)
+                if i in dup_deps:
+                    deps.append(f"//pkg:a{d}" if d in via_alias else f"//pkg:t{d}")
+            t = {"name": f"t{i}", "dependencies": deps, "outputs": [f"t{i}.out"]}
             if i in dir_outputs:
                 t["outputs"] = [f"dir::d{i}", f"t{i}.out"]
-                produce += f"; mkdir -p d{i}; echo one > d{i}/one.txt"
+                produce += f"; mkdir -p d{i}/sub; echo one{i} > d{i}/one.txt; echo two{i} > d{i}/sub/two.txt"
+            if i in no_outputs:
+                t["outputs"] = []
+                produce = "true"
             if k == "exit":
                 gate = f"test -f {flag} || exit 3; "
             elif k == "timeout":
@@ -396,15 +420,32 @@ class CliWs:
                 t["timeout"] = "300ms"
             elif k == "missing":
                 produce = f"if test -f {flag}; then {produce}; fi"
+            elif k == "missing-first":
+                # two declared outputs, the FIRST one is not created until healed
+                t["outputs"] = [f"t{i}.extra"] + t["outputs"]
+                produce = f"{produce}; if test -f {flag}; then echo x > t{i}.extra; fi"
             elif k == "check":
                 t["output_checks"] = [{"command": f"test -f {flag}"}]
+            if timeouts and i in timeouts:
+                t["timeout"] = timeouts[i]
             sl = f"sleep {sleep[i]}; " if sleep and sleep[i] else ""
             body = f"{produce}; {sl}true" if i in sleep_after else f"{sl}{produce}"   # sleep_after: outputs exist while the command still runs
             t["command"] = (f'echo "s {i} $(date +%s%N)" >> {self.trace}; {gate}{body}; '
                             f'echo "e {i} $(date +%s%N)" >> {self.trace}')
+            if k == "exit-logged":
+                # runs (sleeps), logs its end line and only then fails: the end line is the moment of the failure
+                t["command"] = (f'echo "s {i} $(date +%s%N)" >> {self.trace}; {sl}echo "e {i} $(date +%s%N)" >> {self.trace}; '
+                                f'test -f {flag} || exit 3; {produce}')
+            if i in check_only:
+                t["command"] = ""
+                t["outputs"] = []
+                t["output_checks"] = [{"command": f'echo "cs {i} $(date +%s%N)" >> {self.trace}; {sl}echo "ce {i} $(date +%s%N)" >> {self.trace}'}]
             targets.append(t)
+        pkg = {"targets": targets}
+        if via_alias:
+            pkg["aliases"] = [{"name": f"a{d}", "actual": f":t{d}"} for d in sorted(via_alias)]
         with open(os.path.join(self.ws, "pkg", "BUILD.json"), "w") as fh:
-            json.dump({"targets": targets}, fh)
+            json.dump(pkg, fh)
 
     def env(self, extra=None):
         env = dict(os.environ, GROG_ROOT=self.root, HOME=self.d, GROG_DISABLE_TEA="true")
@@ -422,8 +463,11 @@ class CliWs:
         if os.path.exists(self.trace):
             for line in open(self.trace):
                 p = line.split()
-                if len(p) == 3:
-                    ev.append((p[0], int(p[1]), int(p[2])))
+                if len(p) == 3 and p[0] in ("s", "e", "cs", "ce"):
+                    try:
+                        ev.append((p[0], int(p[1]), int(p[2])))
+                    except ValueError:
+                        pass
             if clear:
                 os.remove(self.trace)
         return ev
